@@ -25,8 +25,13 @@ git stash pop -q >> $LOG 2>&1
 tail -5 $D/demo_with.log >> $LOG; tail -3 $D/demo_without.log >> $LOG
 echo "demo_with_patch_exit=$WITH demo_without_patch_exit=$WITHOUT" | tee -a $LOG
 cd /verif
+# build the checks against a fresh scratch worktree of /repo's HEAD with the patch applied
+SW=/tmp/seedwt-$ID
+git -C /repo worktree remove --force $SW >/dev/null 2>&1; rm -rf $SW
+git -C /repo worktree add -q --detach $SW HEAD >> $LOG 2>&1
+if ! git -C $SW apply $D/patch.diff >> $LOG 2>&1; then echo "PATCH DOES NOT APPLY to /repo HEAD" | tee -a $LOG; git -C /repo worktree remove --force $SW; exit 3; fi
 BIN=/verif/bin/sim-$ID.test
-if ! VERIF_REPO=$WT VERIF_BIN=$BIN ./build.sh >> $LOG 2>&1; then echo "BUILD FAILED against $WT" | tee -a $LOG; exit 3; fi
+if ! VERIF_REPO=$SW VERIF_BIN=$BIN ./build.sh >> $LOG 2>&1; then echo "BUILD FAILED against $SW" | tee -a $LOG; git -C /repo worktree remove --force $SW; exit 3; fi
 RES=""
 for p in "$@"; do
   cp /verif/evidence/$p.json /tmp/evidence-$p-$ID.bak 2>/dev/null
@@ -38,4 +43,5 @@ for p in "$@"; do
   cp /tmp/evidence-$p-$ID.bak /verif/evidence/$p.json 2>/dev/null; rm -f /tmp/evidence-$p-$ID.bak
 done
 rm -f $BIN
+git -C /repo worktree remove --force $SW >/dev/null 2>&1
 echo "RESULT $ID demo(with=$WITH,without=$WITHOUT)$RES" | tee -a $LOG
